@@ -1,7 +1,5 @@
 import Secp.Proofs.LimbLawful
 import Secp.Proofs.GroupLaw
-import Secp.Proofs.Equal
-import Secp.Proofs.Ladder
 /-! # Facts about concrete limb-level elements (non-vacuity witnesses) -/
 open Spec
 
